@@ -64,9 +64,17 @@ class StmtMixin:
         if self.c is not None and self.c.at and not self.spec_mode:
             src = " ".join(ast.unparse(s).split())
             for key, ghosts in self.c.at.items():
-                if src.startswith(key):
-                    for g in ghosts:
-                        self.eval(g.node, st)
+                if src.startswith(key) and not getattr(s, "_ghost_done", False):
+                    line = self.cur_line
+                    for body in ghosts:
+                        for g in body:
+                            for n in ast.walk(g):
+                                n.lineno = line
+                        res = self.exec_block(body, st)
+                        if len(res) != 1 or res[0][1] != Flow.NORMAL:
+                            raise Unsupported("ghost code must be straight-line (use if-expressions)")
+                        st = res[0][0]
+                    self.cur_line = line
         try:
             return m(s, st)
         except TypeMismatch as e:
